@@ -187,6 +187,25 @@ def lem_tau_one_to_one():
     return hyps, z3.Not(ab(S1[i], S2[j2]) < SY.tau_spec(S1, S2, i, j2, lim, M))
 
 
+def lem_adjacent_complete():
+    """bridge between the adjacent form proved for the scans and the pairwise definition of C03: a train-1 spike i that
+    lies strictly between the train-2 spikes j and j+1 can only be coincident with j or with j+1"""
+    S1, S2, i, j, lim, M, hyps = _tau_setup()
+    j2 = z3.Int('j2')
+    ab = lambda x, y: z3.If(x >= y, x - y, y - x)
+    hyps += [S2[j] < S1[i], z3.Or(j == toI(S2.n) - 1, S1[i] < S2[j + 1]), 0 <= j2, j2 < toI(S2.n),
+             ab(S1[i], S2[j2]) < SY.tau_spec(S1, S2, i, j2, lim, M)]
+    return hyps, z3.Or(j2 == j, j2 == j + 1)
+
+
+def lem_adjacent_next_event():
+    """... and if it is coincident with the following spike j+1, that spike is the very next event of the merged scan
+    (no train-1 spike at or before it), so the scan does mark the pair"""
+    S1, S2, i, j, lim, M, hyps = _tau_setup()
+    hyps += [S1[i] < S2[j], z3.Or(j == 0, S2[j - 1] < S1[i]), S2[j] - S1[i] < SY.tau_spec(S1, S2, i, j, lim, M), i < toI(S1.n) - 1]
+    return hyps, S1[i + 1] > S2[j]
+
+
 def lem_tau_cap():
     S1, S2, i, j, lim, M, hyps = _tau_setup()
     return hyps, SY.tau_spec(S1, S2, i, j, lim, M) <= lim / 2
@@ -233,6 +252,7 @@ register(LemmaGroup('lemmas.symmetry', [('ratio_symmetric', lem_ratio_sym), ('D_
 register(LemmaGroup('lemmas.window', [('interpolate_py_pyx_spec_equal', lem_interp_form), ('interp_le_b', lem_interp_le_b),
                                       ('interp_monotone', lem_interp_mono), ('interp_small_t', lem_interp_zero),
                                       ('coincident_pairs_are_adjacent', lem_tau_facing), ('coincidence_one_to_one', lem_tau_one_to_one),
+                                      ('adjacent_form_is_pairwise', lem_adjacent_complete), ('adjacent_partner_is_next_event', lem_adjacent_next_event),
                                       ('window_le_half_limit', lem_tau_cap), ('window_monotone_in_limit', lem_tau_mono_limit),
                                       ('limit_monotone_in_max_tau', lem_limit_mono), ('window_mrts_zero', lem_tau_mrts_zero)]))
 register(LemmaGroup('lemmas.mrts', [('ratio_nonincreasing_in_MRTS', lem_ratio_mrts_mono), ('ratio_MRTS_zero', lem_ratio_mrts_zero),
